@@ -38,6 +38,19 @@ func c12Gen(g *Gen) []Case {
 			ys = append(ys, y)
 		}
 	}
+	// leap years 4, 8 and 12 years before a century year that is not a leap year (a fortune that starts a whole number
+	// of years after a 29 February lands on a date that does not exist there): all of them in thorough, 1692..2292 and a
+	// seeded dozen in quick
+	for c := 1700; c <= 9900; c += 100 {
+		if c%400 == 0 {
+			continue
+		}
+		for _, k := range []int{4, 8, 12} {
+			if !g.Quick || (c >= 1700 && c <= 2300) || g.Rng.Intn(16) == 0 {
+				ys = append(ys, c-k)
+			}
+		}
+	}
 	return yearCases("year", ys)
 }
 
@@ -142,6 +155,16 @@ func c12Birth(w *W, st ref.Stamp, class string) {
 				Y = total / 360
 				M = total % 360 / 30
 				D = total % 30
+			}
+			// each component asked first on a fresh fortune object (no accessor relies on another having run before it)
+			for _, c := range []struct {
+				name string
+				get  func(*calendar.Yun) int
+				want int
+			}{{"hour", (*calendar.Yun).GetStartHour, H}, {"year", (*calendar.Yun).GetStartYear, Y}, {"month", (*calendar.Yun).GetStartMonth, M}, {"day", (*calendar.Yun).GetStartDay, D}} {
+				if got := c.get(solarOf(st).GetLunar().GetEightChar().GetYunBySect(gender, sect)); got != c.want {
+					w.Violatef("start-offset", tag+"/first-call/"+c.name, "birth %s gender %d school %d: start-offset %s asked first on a fresh object = %d, rule gives %d", birth, gender, sect, c.name, got, c.want)
+				}
 			}
 			if yun.GetStartYear() != Y || yun.GetStartMonth() != M || yun.GetStartDay() != D || yun.GetStartHour() != H {
 				w.Violatef("start-offset", tag, "birth %s gender %d school %d (forward=%v, Jie %s): start offset %dy %dm %dd %dh, rule gives %dy %dm %dd %dh", birth, gender, sect, fw, fmtStamp(map[bool]ref.Stamp{true: b, false: a}[fw]), yun.GetStartYear(), yun.GetStartMonth(), yun.GetStartDay(), yun.GetStartHour(), Y, M, D, H)
